@@ -597,6 +597,7 @@ func runKillEngine(e *Env, c04, c05 bool) {
 	if c05 {
 		// second monitor: in-process invariant under load (multi-stream and legacy receiver)
 		runC05InProcess(e)
+		runC05FlushTorture(e)
 		e.R.Require(compared >= e.Pick(10, 100), fmt.Sprintf("only %d loadable sidecars compared after kills", compared))
 	}
 	if c04 {
@@ -706,4 +707,76 @@ func runC05InProcess(e *Env) {
 	}
 	e.R.Require(inv.checks.Load() >= int64(e.Pick(200, 3000)), fmt.Sprintf("in-process monitor saw only %d sidecar flushes", inv.checks.Load()))
 	_ = json.Marshal
+}
+
+
+// runC05FlushTorture observes the disk at arbitrary instants while several
+// goroutines mark chunks of one large sidecar and flush it concurrently (what
+// the 1 s ticker, finalizeFile and the signal handler's FlushAllFlushers do to
+// one sidecar): once the sidecar exists, every observation must find a version
+// that LoadSidecar accepts - which is what a SIGKILL at that instant would
+// leave behind (the page cache survives the process).
+func runC05FlushTorture(e *Env) {
+	dir := vk.TempDir(e.Work, "c05torture-")
+	defer os.RemoveAll(dir)
+	rounds := e.Pick(2, 8)
+	observations, unloadable := 0, 0
+	flushes := 0
+	var firstErr string
+	for round := 0; round < rounds; round++ {
+		path := filepath.Join(dir, fmt.Sprintf("t%d", round), vk.ResumeDirName, "big.sbxmap")
+		total := uint32(1) << 25 // 4 MiB bitmap: a flush takes long enough to overlap
+		sc, err := transfer.CreateSidecar(path, "torture", int64(total), 1)
+		if err != nil {
+			e.R.Inconcl("flush torture: " + err.Error())
+			return
+		}
+		stop := make(chan struct{})
+		var wg sync.WaitGroup
+		var mu sync.Mutex
+		for g := 0; g < 3; g++ {
+			wg.Add(1)
+			go func(g int) {
+				defer wg.Done()
+				for i := 0; i < e.Pick(12, 30); i++ {
+					sc.MarkComplete(uint32(g*100000 + i))
+					_ = sc.Flush()
+					mu.Lock()
+					flushes++
+					mu.Unlock()
+				}
+			}(g)
+		}
+		done := make(chan struct{})
+		go func() { wg.Wait(); close(done) }()
+		go func() {
+			<-done
+			close(stop)
+		}()
+	obs:
+		for {
+			select {
+			case <-stop:
+				break obs
+			default:
+			}
+			_, err := transfer.LoadSidecar(path)
+			observations++
+			if err != nil {
+				unloadable++
+				if firstErr == "" {
+					firstErr = err.Error()
+				}
+			}
+		}
+		e.R.Eval()
+		e.R.Distinct(fmt.Sprintf("flush-torture/round%d", round))
+	}
+	e.R.SetExtra("c05_flush_torture", map[string]any{"rounds": rounds, "concurrent_flushes": flushes, "disk_observations": observations, "unloadable_observations": unloadable})
+	if unloadable > 0 {
+		e.R.Violate("atomic-replace:no-valid-version-during-concurrent-flushes",
+			fmt.Sprintf("while 3 goroutines marked and flushed one sidecar concurrently, %d of %d observations of the sidecar path found no loadable version (%s): a kill at such an instant leaves neither the previous nor the new metadata", unloadable, observations, firstErr),
+			map[string]any{"bitmap_bytes": 4 << 20, "writers": 3}, nil)
+	}
+	e.R.Require(observations >= 20, fmt.Sprintf("flush torture made only %d observations", observations))
 }
